@@ -327,6 +327,14 @@ func Solve(obls []*Obligation, dir string, timeoutS int, allSolvers bool, jobs i
 				for k := 1; k <= portfolioSeeds; k++ {
 					defs = append(defs, seeded(k))
 				}
+				if text2 := o.smt(true, true); text2 != text {
+					file2 := filepath.Join(dir, fmt.Sprintf("o%04d_sk.smt2", i))
+					if err := os.WriteFile(file2, []byte(text2), 0o644); err == nil {
+						for _, d := range []solverDef{solvers[0], solvers[1], seeded(1), seeded(2)} {
+							defs = append(defs, onFile(d, file2))
+						}
+					}
+				}
 				pst, psolver, pout, pms, tried := portfolio(defs, timeoutS, file)
 				r.Tried = append(r.Tried, tried...)
 				if pst == "unsat" || pst == "sat" {
